@@ -113,7 +113,10 @@ def collects(prog):
 
 
 MD_PATTERNS = [("two",) * 8, ("none", "one", "two", "mixed", "noref", "two", "one", "none"),
-               ("mixed", "two", "noref", "one", "two", "none", "two", "mixed")]
+               ("mixed", "two", "noref", "one", "two", "none", "two", "mixed"),
+               # tagged elements followed by untagged ones and tagged ones again (buffers of data and of metadata must stay aligned)
+               ("two", "none", "one", "none", "two", "none", "mixed", "two"),
+               ("one", "none", "none", "two", "noref", "none", "one", "none")]
 
 
 def plans_for(prog, tier, rng, vals=(0, 1, 2)):
